@@ -39,6 +39,9 @@ pub fn valuations(seed: u64, n: usize) -> Vec<Valuation> {
     Valuation { name: "len4headers".into(), img: [vec![3, 0, 0, 0], vec![4, 0, 0, 0, 9]] },
     Valuation { name: "ws-padded".into(), img: [b" a ".to_vec(), b"\tb\n".to_vec()] },
     Valuation { name: "unicode-ws".into(), img: ["\u{3000}x\u{a0}".as_bytes().to_vec(), "y \u{2003}".as_bytes().to_vec()] },
+    // strings that look like numbers (a wrapper that "helpfully" parses them)
+    Valuation { name: "numeric".into(), img: [b"7".to_vec(), b"07".to_vec()] },
+    Valuation { name: "numeric-edge".into(), img: [b"255".to_vec(), b"+0".to_vec()] },
   ];
   all.truncate(n.max(1).min(all.len()));
   all
@@ -418,6 +421,12 @@ pub fn recover_replay(a: &Args) -> Report {
     }
     if prop == "C17" && vi == 0 {
       // thresholds at integer-width boundaries: the WASM call agrees with the core library
+      // epoch strings a wrapper might be tempted to interpret: the WASM call agrees with the core
+      // library keyed with the string's UTF-8 bytes, whatever the string looks like
+      for e in ["0", "7", "42", "255", "256", "07", "+7", "-1", "1e3", "0x10", " 7", "７", "true", "null", "2026-09-27T00:00:00Z", "\u{7}", "%37"] {
+        let _ = make_client_wasm(ClientCfg { m: b"wasm epoch sweep".to_vec(), e: e.as_bytes().to_vec(), t: 2, aux: None, src: "local".into() }, &mut rep);
+        rep.nontrivial(format!("wasm-epoch:{e}"));
+      }
       for t in [0u32, 1, 2, 255, 256, 257, 65535, 65536, 65537] {
         for (m, e) in [(b"wasm threshold sweep".to_vec(), b"e".to_vec()), (vec![], vec![]), (vec![0u8, 0xff, 0x80, 0x00], "épöque".as_bytes().to_vec())] {
           let _ = make_client_wasm(ClientCfg { m, e, t, aux: None, src: "local".into() }, &mut rep);
@@ -733,13 +742,17 @@ fn wasm_line(
       } else {
         rep.nontrivial(format!("wasm:{}", Value::Array(ib.to_vec())));
       }
-      // a different epoch never yields the clients' key
-      let other_epoch = format!("{epoch}x");
-      rep.evaluations += 1;
-      if let Guard::Done(Some(k2)) = guard(|| star_wasm::group_shares(&joined, &other_epoch)) {
-        if Some(k2) == client_key {
-          rep.violation("C17", "star_wasm::group_shares", "epoch-ignored",
-            "grouping under a different epoch returned the clients' key".into(), replay.clone());
+      // a different epoch never yields the clients' key — in particular not one that a lenient
+      // reading would identify with the clients' epoch (padding, sign, leading zero, case, width)
+      for other_epoch in [format!("{epoch}x"), format!("0{epoch}"), format!("+{epoch}"), format!("{epoch} "), format!(" {epoch}"),
+                          format!("{epoch}\0"), epoch.to_uppercase() + "\u{200b}"] {
+        rep.evaluations += 1;
+        if let Guard::Done(Some(k2)) = guard(|| star_wasm::group_shares(&joined, &other_epoch)) {
+          if Some(k2) == client_key {
+            rep.violation("C17", "star_wasm::group_shares", "epoch-ignored",
+              format!("grouping under the different epoch {other_epoch:?} returned the clients' key"), replay.clone());
+            break;
+          }
         }
       }
     }
